@@ -32,7 +32,10 @@ pub fn run(seed: u64, n: usize, out: &mut Out, with_sem: bool, known_defects: u3
         });
         let nontrivial = matches!(&o, Outcome::Rows(r) if !r.is_empty())
             || c.features.iter().filter(|f| f.starts_with("edge-") || f.starts_with("fold-") || f.starts_with("tag-")).count() >= 2;
-        let input = case_input_json(&c);
+        let mut input = case_input_json(&c);
+        if let Outcome::Panic(m) = &o {
+            input["impl_panic"] = serde_json::Value::String(m.chars().take(160).collect());
+        }
         let coq_args = case_coq_args(&c);
         let class = engine_class(&c);
         out.add(Case {
